@@ -329,7 +329,7 @@ def gen(tier, rng):
     for ity, p, sl in q.sub:
         k = "S %s %s %s" % (ity, gt.patkey(p), sl)
         nd = ndyn(p)
-        if "P" in sl:
+        if "P" in sl or "C" in sl or "K" in sl:
             pair_cases(out, k, p, sl, rng)
             continue
         combos = list(itertools.product(range(0, 4), repeat=nd))
